@@ -262,7 +262,9 @@ def run_api(case):
             C["api_connects"] = C.get("api_connects", 0) + 1
             res["sets"].setdefault("api_shape", []).append([entry, opts["logger_status"], opts["allow_multiple"], bool(opts["name"]), opts["module_id"] != 0, daemon])
             port = c.sock.getsockname()[1]
-            # wait for the CLIENT_INFO describing this connection (bounded wait; presence)
+            # connect() returned => the manager has sent ACK and then CLIENT_INFO; settle() makes everything it wrote
+            # visible in the monitor's byte log (the poll below is only a safety net)
+            rig.settle()
             x = None
             end = time.time() + 5
             while time.time() < end and x is None:
